@@ -268,4 +268,17 @@ SocksAsConfigured ==
       ops[j].method = (IF cs.auth THEN "userpass" ELSE "noauth")
 ForwardAbsoluteForm ==
   \A j \in DOMAIN ops : ops[j].op = "request" => ((ops[j].form = "absolute") <=> KindOf(cs) = "forward")
+(* C11 over a HISTORY: what a LATER request of another caller carries on the kept-alive connection
+   (sec = [carries, form, dup, connects, res]): its own headers, the proxy's headers / credentials
+   exactly on the forwarding hop, and NOTHING of the request that went before it. *)
+Has(sec, m) == \E x \in DOMAIN sec.carries : sec.carries[x] = m
+SecondOK(sec) ==
+  /\ sec.res = "ok"
+  /\ Has(sec, "caller2Header")
+  /\ ~Has(sec, "callerHeader") /\ ~Has(sec, "callerBody")
+  /\ (sec.form = "absolute") <=> (KindOf(cs) = "forward")
+  /\ (KindOf(cs) # "forward") => (~Has(sec, "proxyAuth") /\ ~Has(sec, "proxyHeader"))
+  /\ (KindOf(cs) = "forward" /\ cs.auth) => Has(sec, "proxyAuth")
+  /\ (KindOf(cs) = "forward" /\ cs.phdr # "none") => Has(sec, "proxyHeader")
+  /\ ~sec.dup
 =============================================================================
